@@ -4,6 +4,7 @@ package main
 
 import (
 	"go/token"
+	"go/types"
 
 	"golang.org/x/tools/go/ssa"
 )
@@ -133,4 +134,181 @@ func cmpClass(op token.Token) string {
 		return "equality"
 	}
 	return "order"
+}
+
+// existsDep: v may depend (data dependence, or control dependence of a φ on a comparison) on a value
+// accepted by base; calls depend on their arguments and on base values read inside a repository callee.
+func existsDep(p *Program, v ssa.Value, base func(ssa.Value) bool, seen map[ssa.Value]bool, depth int) bool {
+	if v == nil || seen[v] || depth > 12 {
+		return false
+	}
+	seen[v] = true
+	if base(v) {
+		return true
+	}
+	switch x := v.(type) {
+	case *ssa.Convert:
+		return existsDep(p, x.X, base, seen, depth+1)
+	case *ssa.ChangeType:
+		return existsDep(p, x.X, base, seen, depth+1)
+	case *ssa.BinOp:
+		return existsDep(p, x.X, base, seen, depth+1) || existsDep(p, x.Y, base, seen, depth+1)
+	case *ssa.Phi:
+		for i, e := range x.Edges {
+			if existsDep(p, e, base, seen, depth+1) {
+				return true
+			}
+			for _, cj := range edgeFacts(x.Block().Preds[i], x.Block(), 0, map[ssa.Value]bool{}) {
+				for _, a := range cj {
+					if _, l, r, ok := cmpAtom(a); ok && (existsDep(p, l, base, map[ssa.Value]bool{}, depth+1) || existsDep(p, r, base, map[ssa.Value]bool{}, depth+1)) {
+						return true
+					}
+				}
+			}
+		}
+	case *ssa.Extract:
+		return existsDep(p, x.Tuple, base, seen, depth+1)
+	case *ssa.Call:
+		for _, a := range x.Common().Args {
+			if existsDep(p, a, base, seen, depth+1) {
+				return true
+			}
+		}
+		if sc := x.Common().StaticCallee(); sc != nil && p.InRepo(sc) {
+			for _, b := range sc.Blocks {
+				for _, ins := range b.Instrs {
+					if val, ok := ins.(ssa.Value); ok && base(val) {
+						return true
+					}
+				}
+			}
+		}
+	case *ssa.UnOp:
+		if a, ok := x.X.(*ssa.Alloc); ok && a.Referrers() != nil {
+			for _, r := range *a.Referrers() {
+				if st, ok := r.(*ssa.Store); ok && st.Addr == ssa.Value(a) && existsDep(p, st.Val, base, seen, depth+1) {
+					return true
+				}
+			}
+		}
+	case *ssa.Parameter:
+		// a helper: every call site must feed a dependent value
+		fn := x.Parent()
+		pi := paramIndex(fn, x)
+		sites := p.callIndex().sites[fn]
+		if pi < 0 || len(sites) == 0 || depth > 6 {
+			return false
+		}
+		for _, s := range sites {
+			if pi >= len(s.Common().Args) || !existsDep(p, s.Common().Args[pi], base, map[ssa.Value]bool{}, depth+3) {
+				return false
+			}
+		}
+		return true
+	}
+	return false
+}
+
+// structFieldValues: the values a struct-typed SSA value can carry in the named field, when the value is
+// a composite literal (alloc + field stores + load), a φ of such, or the result of a repository function
+// returning one.  ok=false: construction not resolved.
+func structFieldValues(p *Program, v ssa.Value, field string, depth int) (vals []ssa.Value, ok bool) {
+	if depth > 3 {
+		return nil, false
+	}
+	switch x := v.(type) {
+	case *ssa.UnOp:
+		a, isAlloc := x.X.(*ssa.Alloc)
+		if x.Op != token.MUL || !isAlloc || a.Referrers() == nil {
+			return nil, false
+		}
+		for _, r := range *a.Referrers() {
+			fa, isFA := r.(*ssa.FieldAddr)
+			if !isFA || fieldOfAddr(fa) == nil || fieldOfAddr(fa).Name() != field || fa.Referrers() == nil {
+				continue
+			}
+			for _, rr := range *fa.Referrers() {
+				if st, isSt := rr.(*ssa.Store); isSt && st.Addr == ssa.Value(fa) {
+					vals = append(vals, st.Val)
+				}
+			}
+		}
+		return vals, len(vals) > 0
+	case *ssa.Phi:
+		for _, e := range x.Edges {
+			vs, ok := structFieldValues(p, e, field, depth+1)
+			if !ok {
+				return nil, false
+			}
+			vals = append(vals, vs...)
+		}
+		return vals, true
+	case *ssa.Call:
+		sc := x.Common().StaticCallee()
+		if sc == nil || !p.InRepo(sc) || len(sc.Blocks) == 0 {
+			return nil, false
+		}
+		for _, b := range sc.Blocks {
+			if r, isRet := b.Instrs[len(b.Instrs)-1].(*ssa.Return); isRet && len(r.Results) == 1 {
+				vs, ok := structFieldValues(p, r.Results[0], field, depth+1)
+				if !ok {
+					return nil, false
+				}
+				vals = append(vals, vs...)
+			}
+		}
+		return vals, len(vals) > 0
+	}
+	return nil, false
+}
+
+// ruleTAILOFFSET: the queue tail stored by a flush is where the next event will be appended after a
+// reopen.  When the flush ends inside an event that is still being written, the only record of where
+// that event begins is buffer.eventHdrOffset; the page's EndOff already includes the partial event.
+func ruleTAILOFFSET(p *Program, rep *Report) {
+	rep.Rule("TAIL-OFFSET", 1, "the offset stored in the queue header's tail position by a flush depends on the page's end offset AND on the write buffer's record of where an unfinished event begins (buffer.eventHdrOffset): a tail computed any other way includes or cuts bytes of the event still being written, so that after a reopen new events are appended at the wrong offset and flushed events are lost or garbage is delivered")
+	tail := p.FieldVar("pq", "queuePage", "tail")
+	hdrOff := p.FieldVar("pq", "buffer", "eventHdrOffset")
+	endOff := p.FieldVar("pq", "pageMeta", "EndOff")
+	wp := p.Method("pq", "access", "WritePosition")
+	isLoad := func(f *types.Var) func(ssa.Value) bool {
+		return func(v ssa.Value) bool { return loadedField(v) == f }
+	}
+	n := 0
+	for _, fn := range p.SrcFuncs() {
+		for _, c := range callsIn(fn, func(callee *ssa.Function, _ ssa.CallInstruction) bool { return callee == wp }) {
+			args := c.Common().Args
+			if len(args) < 3 {
+				continue
+			}
+			fa, ok := args[1].(*ssa.FieldAddr)
+			if !ok || fieldOfAddr(fa) != tail {
+				continue
+			}
+			n++
+			rep.Analysed(funcName(fn))
+			key := funcName(fn) + "|tail.off"
+			vals, ok := structFieldValues(p, args[2], "off", 0)
+			if !ok {
+				rep.Unknown("TAIL-OFFSET", key, p.InstrPos(c), "construction of the position written to the tail not resolved")
+				continue
+			}
+			depHdr, depEnd := false, false
+			for _, v := range vals {
+				depHdr = depHdr || existsDep(p, v, isLoad(hdrOff), map[ssa.Value]bool{}, 0)
+				depEnd = depEnd || existsDep(p, v, isLoad(endOff), map[ssa.Value]bool{}, 0)
+			}
+			switch {
+			case depHdr && depEnd:
+				rep.OK("TAIL-OFFSET", key, p.InstrPos(c), "tail offset depends on the page end offset and on buffer.eventHdrOffset")
+			case !depHdr:
+				rep.Bad("TAIL-OFFSET", key, p.InstrPos(c), "the tail offset written by the flush does not depend on buffer.eventHdrOffset: when the flush ends inside an unfinished event the stored tail is not the start of that event, and after a reopen the writer appends at a wrong offset (events lost / garbage delivered)")
+			default:
+				rep.Bad("TAIL-OFFSET", key, p.InstrPos(c), "the tail offset written by the flush does not depend on the last page's end offset")
+			}
+		}
+	}
+	if n == 0 {
+		rep.Unknown("TAIL-OFFSET", "anchor", "", "no WritePosition to queuePage.tail found (anchor lost)")
+	}
 }
